@@ -420,7 +420,7 @@ def run_C15(ctx):
                   invariants=["NoPartial"], simulate="num=%d" % (3000 if q else 100000), depth=15, **kw)
     # the writer: to_json of every layout (all node classes and encodings, NumPy leaves of one and two dimensions, contiguous
     # or views into a wider buffer) parsed by Python's json equals the value
-    consts = session_consts(OpSet='{"tolist"}', LeafSet=MIXED_LEAVES + ' \\cup {Numpy("int64", <<1, 2, 3, 4, 5, 6>>)}', MaxDepth="2",
+    consts = session_consts(OpSet='{"tolist"}', LeafSet=MIXED_LEAVES + ' \\cup {Numpy("int64", <<1, 2, 3, 4, 5, 6>>), Numpy("complex128", <<1, 2>>)}', MaxDepth="2",
                             MaxLen="2" if q else "3", Classes='{"Regular","ListOffset","List","IndexedOption","ByteMasked","Unmasked"}')
     ctx.tlc_phase("to-json-every-layout", "Session", consts, invariants=["Refines", "Closed"],
                   require_actions=["ToListOp", "WrapRegular", "WrapListOffset", "WrapIndexedOption"],
